@@ -59,6 +59,18 @@ def relabellings(rnd, lines):
     for shift in (rnd.randint(1, 400), -(min(nums) + rnd.randint(1, 50))):
         if max(nums) + shift < 9999 and min(nums) + shift > -999:
             out.append(("shift%+d" % shift, [pdbgen.setcols(l, 22, 26, "%4d" % (int(l[22:26]) + shift)) if pdbgen.is_atom(l) else l for l in lines]))
+    # shift one chain only, by an amount that makes chain code and number coincide for keys built arithmetically from both
+    # (multiples of 1000, differences of chain code points times 1000) or by an arbitrary amount
+    if len(chains) >= 1:
+        c = rnd.choice(chains)
+        cn = [int(l[22:26]) for l in lines if pdbgen.is_atom(l) and l[21] == c]
+        others = [ord(x) - ord(c) for x in chains if x != c]
+        ok = lambda sh: sh != 0 and max(cn) + sh < 9999 and min(cn) + sh > -999
+        coll = [sh for d in others for sh in (1000 * d, -1000 * d) if ok(sh)]
+        free = [sh for sh in (1000, -1000, 2000, rnd.randint(-900, 3000)) if ok(sh)]
+        for sh in ([rnd.choice(coll)] if coll else []) + ([rnd.choice(free)] if free else []):
+            out.append(("chain-%s-shift%+d" % (c.strip() or "_", sh),
+                        [pdbgen.setcols(l, 22, 26, "%4d" % (int(l[22:26]) + sh)) if pdbgen.is_atom(l) and l[21] == c else l for l in lines]))
     return out
 
 
